@@ -103,9 +103,11 @@ def QState.switchesDefault (s : QState) : Prop :=
 /-- `InferenceState.reset_recursion_limitations`; `resets` = the attributes it re-creates
 (translator) -/
 def reset (resets : List String) (s : QState) : QState :=
-  { s with bookkeepingFresh :=
+  { s with
+    bookkeepingFresh :=
       if resets.contains "self.execution_recursion_detector" && resets.contains "self.recursion_detector"
-      then true else s.bookkeepingFresh }
+      then true else s.bookkeepingFresh
+    counts := if resets.contains "self.inferred_element_counts" then Counts.empty else s.counts }
 
 /-- what a query body does, as far as this state is concerned. Any step may raise. -/
 inductive Act where
